@@ -39,7 +39,11 @@ pub const GOOD_DEPENDS: [(&str, &str, &str); 10] = [
     ("PKGNAME=x-[0-9]*:../../a/b", "PKGNAME=x-[0-9]*", "a/b"),
 ];
 
-pub const BAD_DEPENDS: [&str; 9] = [
+pub const BAD_DEPENDS: [&str; 13] = [
+    "foo-1.0:../../devel/..",
+    "foo-1.0:../../../..",
+    "foo-1.0:../../../devel",
+    "foo-1.0:cat/..",
     "hello",
     "pkg>0::../../cat/pkg",
     "a:b:c",
@@ -60,7 +64,10 @@ pub const GOOD_LOCATIONS: [(&str, &str); 5] = [
     ("../../x/y", "x/y"),
 ];
 
-pub const BAD_LOCATIONS: [&str; 7] = ["", "pkg_install", "/cat/pkg", "../pkg", "a/b/c", "../../pkg", "../../a/b/c"];
+pub const BAD_LOCATIONS: [&str; 13] = [
+    "", "pkg_install", "/cat/pkg", "../pkg", "a/b/c", "../../pkg", "../../a/b/c",
+    "../../devel/..", "../../../..", "../../../devel", "../..", "devel/..", "../devel",
+];
 
 #[derive(Clone, Debug, Serialize, Deserialize)]
 pub enum Item {
